@@ -221,6 +221,8 @@ func (s *Service) GetJournals(ctx context.Context, tagsCond *lql.Source, maxLimi
 		j, err1 = s.Journals.GetOrCreate(ctx, jrnl)
 		if err1 != nil {
 			s.logger.Error("GetJournals(): Could not create of get partition instance for ", jrnl, ", err=", err1)
+			// the visit runs with VF_DO_NOT_RELEASE: jrnl is acquired, but it will not be in res
+			s.TIndex.Release(jrnl)
 			return false
 		}
 
